@@ -166,6 +166,8 @@ def run(rep, tier):
     rep.rule('R02.10', 'exit sets follow the transition domain: the engines\' getTransitionDomain has the specified quantifier shape (same rule as C01 R01.11)')
     rep.rule('R02.11', 'set-valued relations are used as sets: inside step() the completion / target / ancestor sets of a state or transition are only used whole (range-for, begin()..end() pair, whole-container copy), never through their first element alone')
     rep.rule('R02.12', 'closure loops visit every member: no loop of step() that walks an ordered set with an iterator assigns that iterator from the result of an insertion into the same set (the walk would continue at the insertion point and skip the members in between); closures are computed while walking a copy or by forward walks with plain increments')
+    rep.rule('R02.18', 'what the entry-set closure adds is itself completed: the pass over the entry set restarts (or is otherwise a fix-point) when it adds a state that precedes the one being handled')
+    rep.rule('R02.17', 'a history restores what was recorded for IT: the remembered value of a history is kept per history (or the completions of distinct histories are disjoint); with one shared set a nested history\'s record is taken for the enclosing deep history\'s value (same rule as C01 R01.12)')
     rep.rule('R02.16', 'remembered history is a snapshot: when a history\'s parent is exited, every member of the history\'s completion is either recorded (active) or forgotten (not active); no path through one iteration of that loop leaves the old record of the member in place')
     rep.rule('R02.15', 'reset() (and with it deserialize(), which resets and then only inserts) re-initialises the configuration views and the remembered history: a history that survives is merged with the restored one and names states that were never active together (same rule as C10 R10.3)')
     rep.rule('R02.13', 'deep completion sees direct children: the fast engine\'s children relation is set for the direct parent only (same rule as C03 R03.6; with all descendants in it the test "completion has no child of this state" never fires and ancestors of deep initial targets are not entered)')
@@ -190,6 +192,47 @@ def run(rep, tier):
         if not brk:
             rep.ok('R02.11', eng + '|deep completion', 'every completion member contributes its ancestors (%d loop(s))' % n)
     rep.minimum('R02.11', nl, 2, 'loops adding the ancestors of completion members in the engines')
+    for q in ENGINES:
+        for lp_, gd_ in _skel.completion_closure_wholesale_guard(fb.fn(q)):
+            rep.fail('R02.11', '%s|deep completion switched as a whole' % q.split('::')[1], locstr(gd_), 'the loop at %s adds the ancestors of deep completion members only if NO member is a direct child: initial="C a" (a child and a deeper descendant) enters a without its parents, and C takes its default child as well' % locstr(lp_))
+    # R02.18: the entry-set closure resolves what it adds
+    for q in ENGINES:
+        fq = fb.fn(q)
+        # the loop that establishes the entry set: it ORs / inserts transition targets into the entry set
+        cand = []
+        for lp in fq.walk():
+            if lp['k'] not in ('ForStmt', 'WhileStmt', 'CXXForRangeStmt'):
+                continue
+            if any(a_['k'] in ('ForStmt', 'WhileStmt', 'CXXForRangeStmt', 'DoStmt') for a_ in fq.ancestors(lp)):
+                continue
+            body = lp['c'][-1]
+            if body is None:
+                continue
+            adds = [n for n in sub(body) if ((n['k'] in ('CXXOperatorCallExpr', 'CompoundAssignOperator') and n.get('op') == '|=') or (n['k'] == 'CXXMemberCallExpr' and n.get('callee', {}).get('q', '').split('::')[-1] == 'insert')) and
+                    any(x['k'] == 'MemberExpr' and x['ref'].get('name') == '_entrySet' for x in sub(n)) and any(x['k'] == 'MemberExpr' and x['ref'].get('name') == 'target' for x in sub(n))]
+            if adds:
+                cand.append((lp, adds))
+        if not cand:
+            raise AnalysisBroken('%s: the loop that establishes the entry set was not found' % q)
+        lp, adds = cand[0]
+        # a fix-point needs a restart: the loop variable is set back, or an outer `changed` loop exists, or a work list is used
+        restart = any(n['k'] in ('BinaryOperator', 'CXXOperatorCallExpr') and n.get('op') == '=' and any(m[0] in ('find_first',) for m in (n.get('mac') or [])) for n in sub(lp['c'][-1])) or any(
+            x['k'] == 'GotoStmt' for x in sub(lp['c'][-1]) if x.get('label', '').startswith('ESTABLISH')) or any(
+            x['k'] == 'CXXMemberCallExpr' and x.get('callee', {}).get('q', '').split('::')[-1] == 'find_first' for x in sub(lp['c'][-1]) if any(
+                y['k'] == 'MemberExpr' and y['ref'].get('name') == '_entrySet' for y in sub(x)))
+        rep.check(restart, 'R02.18', '%s|entry-set closure' % q.split('::')[1], locstr(lp), 'the closure of the entry set is %s' % ('a fix-point' if restart else
+                  'ONE forward pass in document order: a state added with a smaller index than the one being handled (a history whose default transition targets a history that is sorted before it) is never resolved - the compound state is entered without a child'))
+    # R02.17: a history's value is its own (same rule as C01 R01.12, seen from the configuration)
+    from .C05 import history_features
+    for q in ENGINES:
+        fq = fb.fn(q)
+        hf = history_features(fb, fb.fn(fq.rec + '::getHistoryCompletion'))
+        store_types = {(n.get('t') or '')[:60] for n in fq.walk() if n['k'] == 'MemberExpr' and n.get('ref', {}).get('name') == '_history'}
+        shared = bool(store_types) and not any('map<' in t for t in store_types)
+        overlap = any('isDescendant' in x for x in hf['deep']) and not hf['exclusion_live']
+        rep.check(not (shared and overlap), 'R02.17', '%s|history value is per history' % q.split('::')[1], hf['site'], 'the value of a history is read as `completion & _history` from %s: %s' % (
+            'ONE set of states shared by all histories' if shared else 'a record per history',
+            'the record of a shallow history nested below a deep history counts as the deep history\'s value although its parent was never exited - a transition to the deep history then enters the nested record and leaves the configuration illegal' if shared and overlap else 'records are independent'))
     # R02.16: a history's record is rewritten completely when its parent is exited
     hl = _skel.history_rewrite_total(fb, fb.fn('uscxml::LargeMicroStep::step'))
     rep.minimum('R02.16', len(hl), 1, 'member-wise history rewrite loops in LargeMicroStep::step')
